@@ -31,6 +31,10 @@ FAILING = {
     "interp-error+call": SINK_CALL + asm("POP", "POP", "STOP"),
     "newobj_ex+call": SINK_CALL + asm("POP", ("GLOBAL", ("vp_sink", "hit")), "EMPTY_TUPLE", "EMPTY_DICT", "NEWOBJ_EX", "STOP"),
     "append-nonlist+call": SINK_CALL + asm("NONE", "APPEND", "STOP"),
+    "invalid-first-byte(ff)+call": b"\xff" + SINK_CALL + b".",
+    "invalid-first-byte(00)+call": b"\x00" + SINK_CALL + b".",
+    "invalid-first-byte(7f)+call": b"\x7f" + SINK_CALL + b".",
+    "stop-only+call": b"." + SINK_CALL + b".",
     "empty": b"",
     "garbage": b"\xff\xfe not a pickle",
 }
@@ -294,7 +298,7 @@ def check(tier):
     rep.set("traces_validated_against_impl", n)
     rep.set("fault_points", len(flips))
     rep.set("inputs", list(allin))
-    rep.set("rule", "product inputs(15) x arming(3) x stream kind(4) x thresholds(6 for the loader, LIKELY_SAFE for hook/context) on the real code, plus "
+    rep.set("rule", "product inputs(19) x arming(3) x stream kind(4) x thresholds(6 for the loader, LIKELY_SAFE for hook/context) on the real code, plus "
                     "every stream fault point k=0..N+2 (content flips after the k-th read/seek/tell call, both directions) per arming path; "
                     "each configuration is one distinct point")
     rep.sample({"input": "overtly", "arming": "global-hook", "stream": "nonseekable", "threshold": "LIKELY_SAFE"})
